@@ -1,0 +1,15 @@
+//go:build verif
+
+package structuredheader
+
+// Contracts for govc (comment-only; compiled only with -tags verif).
+
+//@ func ParseListOfLists
+//@   props C16 C10
+//@   trusted
+//@   assigns nothing
+
+//@ func ParseParameterisedList
+//@   props C16 C10
+//@   trusted
+//@   assigns nothing
